@@ -53,6 +53,28 @@ func VerifH_C05_AddSub() {
 		r.MulScalar(pb, g1, tb)
 		r.Add(ta, tb, want)
 		vAssertPolyEq(r, vPhase(c, out), want, tag+"-Add-mismatched-scales-phase")
+		// operands of unequal degree and scale into a degree-2 receiver that held other data before
+		d2 := vAtomCiphertext(c, 2, level, "d", 5)
+		pd := vPhase(c, d2)
+		for oi, ops := range [][2]*rlwe.Ciphertext{{a, d2}, {d2, a}} {
+			name := tag + []string{"-Add-degree1-plus-degree2", "-Add-degree2-plus-degree1"}[oi] + "-mismatched-scales-into-a-used-receiver"
+			used := vAtomCiphertext(c, 2, level, "junk", 9)
+			vAssert(eval.Add(ops[0], ops[1], used) == nil, name+"-no-error")
+			sa, sb := ops[0].Scale.Uint64(), ops[1].Scale.Uint64()
+			h0, h1, _ := eval.matchScalesBinary(sa, sb)
+			vAssert(h0*sa%t == h1*sb%t && h0*sa%t == used.Scale.Uint64()%t, name+"-scale-relation-mod-t")
+			p0, p1 := pa, pd
+			if oi == 1 {
+				p0, p1 = pd, pa
+			}
+			r.MulScalar(p0, h0, ta)
+			r.MulScalar(p1, h1, tb)
+			r.Add(ta, tb, want)
+			vAssert(used.Degree() == 2, name+"-degree")
+			if used.Degree() == 2 {
+				vAssertPolyEq(r, vPhase(c, used), want, name+"-phase")
+			}
+		}
 	}
 	vCover("C05-addsub-reached")
 }
@@ -207,6 +229,34 @@ func VerifH_C05_ScalarAndVectorOperands() {
 		if out.Level() == level {
 			vAssertPolyEq(r, vPhase(c, out), want, tag+"-Sub-subtracts-the-vector-encoded-at-the-operand-scale")
 		}
+	}
+	// a vector shorter than the number of slots stands for the vector padded with zeros (whatever the encoder's buffers
+	// held before)
+	{
+		short := 5
+		padded := make([]uint64, params.MaxSlots())
+		copy(padded, vec[:short])
+		refP := NewPlaintext(params, level)
+		refP.Scale = a.Scale
+		if err := c.Ecd.Encode(padded, refP); err != nil {
+			panic(err)
+		}
+		out := NewCiphertext(params, 1, level)
+		vAssert(eval.Add(a, vec[:short], out) == nil, "short-vector-operand-Add-no-error")
+		r.Add(pa, refP.Value, want)
+		vAssertPolyEq(r, vPhase(c, out), want, "short-vector-operand-Add-adds-the-zero-padded-vector")
+		refP.Scale = params.NewScale(1)
+		if err := c.Ecd.Encode(padded, refP); err != nil {
+			panic(err)
+		}
+		vAssert(eval.Mul(a, vec[:short], out) == nil, "short-vector-operand-Mul-no-error")
+		r.MulCoeffsBarrett(pa, refP.Value, want)
+		r.MulScalar(want, t, want)
+		vAssertPolyEq(r, vPhase(c, out), want, "short-vector-operand-Mul-multiplies-by-the-zero-padded-vector")
+		ptS := NewPlaintext(params, level)
+		ptS.Scale = params.NewScale(1)
+		vAssert(c.Ecd.Encode(vec[:short], ptS) == nil, "short-vector-Encode-no-error")
+		vAssertPolyEq(r, ptS.Value, refP.Value, "short-vector-Encode-is-the-encoding-of-the-zero-padded-vector")
 	}
 	// product with a vector operand: phase_out = T·phase·pt1 with the vector encoded at scale 1 (so that the scale of
 	// the result is the scale of the ciphertext), the input ciphertext - data and metadata - is left as it was
